@@ -1284,3 +1284,4 @@ T("C12", "twin-dicke-stop-test-gt", ("wavefunction.py", "                if not 
 T("C12", "twin-msb-bit-length", ("wavefunction.py", "    bin_string = bin(val)\n    return len(bin_string) - 2", "    return val.bit_length()"))
 B("C17", "projected-key-as-digit-string", ("distributions/_measurement_outcome_distribution.py", "            new_key = tuple(key[i] for i in active_qubits)", '            new_key = "".join(str(key[i]) for i in active_qubits)'), rule="C17-D4")
 B("C17", "projected-key-comma-joined", ("distributions/_measurement_outcome_distribution.py", "            new_key = tuple(key[i] for i in active_qubits)", '            new_key = ",".join(str(key[i]) for i in active_qubits)'), rule="C17-D4")
+B("C17", "one-entry-key-without-separator", ("distributions/_measurement_outcome_distribution.py", '        (",".join(map(str, key)) + ("," if len(key) == 1 else ""))', '        ",".join(map(str, key))'), rule="C17-D5")
